@@ -364,6 +364,24 @@ func subjects(r *vhlib.Rng, size, hi int) []*subject {
 			l.Remove(r.Intn(l.Size() + 1))
 			l.Add(r.Intn(hi + 1))
 		}
+		// batch inserts at the head, in the middle and at the end (they maintain prev links separately)
+		for i := 0; i < 1+size/4; i++ {
+			batch := make([]int, 1+r.Intn(3))
+			for j := range batch {
+				batch[j] = r.Intn(hi + 1)
+			}
+			idx := 0
+			switch r.Intn(3) {
+			case 1:
+				idx = r.Intn(l.Size() + 1)
+			case 2:
+				idx = l.Size()
+			}
+			l.Insert(idx, batch...)
+			if r.Chance(1, 3) && l.Size() > 0 {
+				l.Remove(r.Intn(l.Size()))
+			}
+		}
 		vs := l.Values()
 		out = append(out, &subject{label: "doublylinkedlist", kindCoq: "KLinked true " + ints(vs), reported: idxPairs(vs), bidir: true,
 			mk: func() interface{} { it := l.Iterator(); return &it },
@@ -383,6 +401,12 @@ func subjects(r *vhlib.Rng, size, hi int) []*subject {
 		for i := 0; i < size/3; i++ {
 			l.Remove(r.Intn(l.Size() + 1))
 			l.Add(r.Intn(hi + 1))
+		}
+		for i := 0; i < 1+size/4; i++ {
+			l.Insert(r.Intn(l.Size()+1), r.Intn(hi+1), r.Intn(hi+1))
+			if r.Chance(1, 3) && l.Size() > 0 {
+				l.Remove(r.Intn(l.Size()))
+			}
 		}
 		vs := l.Values()
 		out = append(out, &subject{label: "singlylinkedlist", kindCoq: "KLinked false " + ints(vs), reported: idxPairs(vs), bidir: false,
